@@ -15,7 +15,7 @@ GEN = ['GChecks.v', 'GPolicy.v', 'GParser.v']
 
 ROLES = ['admin', 'member', 'reader', 'old', 'new', 'x']
 ROLESETS = [[r for i, r in enumerate(ROLES) if (m >> i) & 1] for m in range(0, 64, 3)]
-ROLESETS += [['team-\U00020bb7\u91ce'], ['\u00e9quipe', 'x'], ['team-\U00020bb7\u91ce', 'reader']]
+ROLESETS += [['cloud admin'], ['cloud admin', 'member'], ['team-\U00020bb7\u91ce'], ['\u00e9quipe', 'x'], ['team-\U00020bb7\u91ce', 'reader']]
 
 
 def mk_defaults(rng):
@@ -47,7 +47,9 @@ VALUES = ['role:admin', 'role:member or role:reader', 'rule:admin_required', 'no
           'role:member and (role:reader or role:x)', [['role:admin'], ['role:member', 'role:reader']], [], [['role:x']],
           ['role:reader'],
           # characters outside ASCII / Latin-1 / the BMP must come through the tools unchanged
-          'role:team-\U00020bb7\u91ce or role:x', 'role:\u00e9quipe', [['role:team-\U00020bb7\u91ce']]]
+          'role:team-\U00020bb7\u91ce or role:x', 'role:\u00e9quipe', [['role:team-\U00020bb7\u91ce']],
+          # list form can say what the text form cannot: a role name with a blank in it
+          [['role:cloud admin']], [['role:cloud admin', 'role:member'], ['role:x']]]
 
 
 def mk_file(rng, defs, allow_alias=True):
@@ -69,7 +71,11 @@ def mk_file(rng, defs, allow_alias=True):
         if any(s in f for s in succ):
             continue                                    # both a deprecated name and a successor: excluded
         r = rng.random()
-        if r < 0.45:
+        if r < 0.12:
+            # the operator pinned the deprecated name to (a spelling of) its old default
+            oc = [d[2][1] for d in defs if d[2] and d[2][0] == o][0]
+            f[o] = rng.choice([oc, '(' + oc + ')', '  ' + oc, [[oc]]])
+        elif r < 0.45:
             f[o] = rng.choice(VALUES)
         elif r < (0.8 if len(succ) > 1 else 0.6) and allow_alias:
             f[o] = 'rule:' + rng.choice(succ)        # the old name kept as an alias of one (of possibly several) successors
